@@ -3,6 +3,7 @@ package ante
 import (
 	"cosmossdk.io/math"
 	sdk "github.com/cosmos/cosmos-sdk/types"
+	"github.com/cosmos/cosmos-sdk/x/authz"
 	stakingtypes "github.com/cosmos/cosmos-sdk/x/staking/types"
 )
 
@@ -17,22 +18,39 @@ type AnteDecoratorStakingCommission struct{}
 func (a AnteDecoratorStakingCommission) AnteHandle(
 	ctx sdk.Context, tx sdk.Tx, simulate bool, next sdk.AnteHandler,
 ) (newCtx sdk.Context, err error) {
-	for _, msg := range tx.GetMsgs() {
+	if err := checkCommission(tx.GetMsgs()); err != nil {
+		return ctx, err
+	}
+
+	return next(ctx, tx, simulate)
+}
+
+// checkCommission enforces the maximum commission on the given messages and on
+// the messages nested inside of authz "MsgExec" messages, at any depth.
+func checkCommission(msgs []sdk.Msg) error {
+	for _, msg := range msgs {
 		switch msg := msg.(type) {
 		case *stakingtypes.MsgCreateValidator:
 			rate := msg.Commission.Rate
 			if rate.GT(MAX_COMMISSION()) {
-				return ctx, NewErrMaxValidatorCommission(rate)
+				return NewErrMaxValidatorCommission(rate)
 			}
 		case *stakingtypes.MsgEditValidator:
 			rate := msg.CommissionRate
 			if rate != nil && msg.CommissionRate.GT(MAX_COMMISSION()) {
-				return ctx, NewErrMaxValidatorCommission(*rate)
+				return NewErrMaxValidatorCommission(*rate)
+			}
+		case *authz.MsgExec:
+			innerMsgs, err := msg.GetMessages()
+			if err != nil {
+				return err
+			}
+			if err := checkCommission(innerMsgs); err != nil {
+				return err
 			}
 		default:
 			continue
 		}
 	}
-
-	return next(ctx, tx, simulate)
+	return nil
 }
